@@ -29,6 +29,12 @@ pub struct Case {
     /// level-N target size in units of one chunk's size (0 = 1 byte, i.e. every chunk is "at target")
     pub target_chunks: usize,
     pub max_levels: usize,
+    /// L0 chunks in the hour after hour B
+    #[serde(default)]
+    pub l0_c: usize,
+    /// one more L0 chunk whose rows straddle the boundary between hour B and the hour after it
+    #[serde(default)]
+    pub straddle: bool,
 }
 
 const MAX_CYCLES: usize = 8;
@@ -75,7 +81,44 @@ async fn run_case(c: &Case) -> Result<(usize, usize), Fail> {
             original.extend(rows.iter().map(|r| r.id));
         }
     }
+    let hour_b_start = hour_bucket(now) - 3 * HOUR;
+    let mut extra: Vec<(String, Vec<Row>)> = Vec::new();
+    for i in 0..c.l0_c {
+        let rows: Vec<Row> = (0..2)
+            .map(|k| {
+                id += 1;
+                row(hour_b_start + HOUR + 120_000_000_000 + (i as i64) * 1_000_000 + k, id)
+            })
+            .collect();
+        extra.push((format!("t/data/l0c_{i}.parquet"), rows));
+    }
+    if c.straddle {
+        let rows: Vec<Row> = vec![
+            {
+                id += 1;
+                row(hour_b_start + HOUR - 1, id)
+            },
+            {
+                id += 1;
+                row(hour_b_start + HOUR, id)
+            },
+            {
+                id += 1;
+                row(hour_b_start + HOUR + 30_000_000_000, id)
+            },
+        ];
+        extra.push(("t/data/l0_straddle.parquet".to_string(), rows));
+    }
+    for (p, rows) in extra {
+        let m = put_chunk(&mem, base.as_ref(), &p, &rows, true).await;
+        if chunk_size == 0 {
+            chunk_size = m.size_bytes;
+        }
+        levels.insert(p, 0);
+        original.extend(rows.iter().map(|r| r.id));
+    }
     original.sort();
+    let mut by_time_cache: BTreeMap<String, Vec<(i64, i64)>> = BTreeMap::new();
     let tsize = if c.target_chunks == 0 { 1 } else { ((chunk_size as usize) * c.target_chunks).saturating_sub(10).max(1) };
     let cfg = CompactorConfig {
         l0_merge_threshold: c.l0_merge_threshold,
@@ -183,6 +226,13 @@ async fn run_case(c: &Case) -> Result<(usize, usize), Fail> {
             Ok(ids) => return Err(Fail { sig: "C20:rows-not-conserved".into(), msg: format!("cycle {cycle}: reachable ids {ids:?} != original {original:?}") }),
             Err(p) => return Err(Fail { sig: "C20:listed-chunk-missing".into(), msg: format!("cycle {cycle}: {p} listed but missing") }),
         }
+        // every row is still found through the time index (a fresh client for the object-store catalog: no cache)
+        {
+            let fresh: Arc<dyn MetadataClient> = if os { Arc::new(os_client(mem.clone())) } else { base.clone() };
+            if let Err((p, rid, ts, got)) = rows_found_by_time(&mem, fresh.as_ref(), &paths, &mut by_time_cache).await {
+                return Err(Fail { sig: "C20:row-not-found-by-time-range".into(), msg: format!("cycle {cycle}: row id {rid} (timestamp {ts}) lives in {p}, but get_chunks([{ts},{ts}]) returns {got:?}") });
+            }
+        }
         if prev.as_ref() == Some(&state) {
             return Ok((cycle, merges));
         }
@@ -206,7 +256,15 @@ pub fn cases(tier: &str) -> Vec<Case> {
                                     if !t && ml == 4 && tc == 2 && l2 > 0 {
                                         continue;
                                     }
-                                    v.push(Case { backend: backend.into(), l0_a, l0_b, l1, l2, l0_merge_threshold: thr, target_chunks: tc, max_levels: ml });
+                                    v.push(Case { backend: backend.into(), l0_a, l0_b, l1, l2, l0_merge_threshold: thr, target_chunks: tc, max_levels: ml, l0_c: 0, straddle: false });
+                                    // the same with a chunk straddling the hour boundary after hour B, alone and next to
+                                    // chunks in the following hour
+                                    if l0_a <= 1 && l1 <= 1 && l2 == 0 {
+                                        for l0_c in [0usize, 1, 2] {
+                                            v.push(Case { backend: backend.into(), l0_a, l0_b, l1, l2, l0_merge_threshold: thr, target_chunks: tc, max_levels: ml, l0_c, straddle: true });
+                                        }
+                                        v.push(Case { backend: backend.into(), l0_a, l0_b, l1, l2, l0_merge_threshold: thr, target_chunks: tc, max_levels: ml, l0_c: 2, straddle: false });
+                                    }
                                 }
                             }
                         }
@@ -288,7 +346,7 @@ pub fn run(tier: &str) -> i32 {
     rep.set("distinct_nontrivial", nontrivial.load(Ordering::SeqCst));
     rep.set("merges", total_merges.load(Ordering::SeqCst));
     rep.set("max_cycles_to_fixed_point", maxc.load(Ordering::SeqCst));
-    rep.set("rule", "every initial catalog (0..n chunks per level L0 hour A / L0 hour B / L1 / L2) x l0_merge_threshold {2,3} x level target size {1 byte, ~2 chunks, ~100 chunks} x max_levels {2,4} x both back ends; each run through up to 8 real compaction cycles; states = catalog states between cycles; non-trivial = at least one merge happened");
+    rep.set("rule", "every initial catalog (0..n chunks per level L0 hour A / L0 hour B / L1 / L2, plus variants with 0..2 L0 chunks in the hour after B and an L0 chunk straddling that hour boundary) x l0_merge_threshold {2,3} x level target size {1 byte, ~2 chunks, ~100 chunks} x max_levels {2,4} x both back ends; each run through up to 8 real compaction cycles; states = catalog states between cycles; non-trivial = at least one merge happened");
     rep.push_sample(json!(cs.get(cs.len() / 2)));
     if nontrivial.load(Ordering::SeqCst) == 0 {
         rep.machinery("vacuity guard: no case performed a merge");
